@@ -351,6 +351,10 @@ func LoadFromViper(inputViper *viper.Viper) (Config, error) {
 
 	// then override with settings from input viper (higher precedence)
 	for _, key := range inputViper.AllKeys() {
+		// AllKeys also lists bound flags that were not given; their defaults must not override the file
+		if !inputViper.IsSet(key) {
+			continue
+		}
 		// Handle special case for prefixed keys
 		if after, ok := strings.CutPrefix(key, "rollkit."); ok {
 			// Strip the prefix for the merged viper
